@@ -180,19 +180,21 @@ class Effect:
 
 
 class State:
-    __slots__ = ('env', 'fields', 'path', 'effects', 'raised', 'notes')
+    __slots__ = ('env', 'fields', 'path', 'effects', 'raised', 'notes', 'notepos')
 
-    def __init__(self, env=None, fields=None, path=(), effects=(), raised=None, notes=()):
+    def __init__(self, env=None, fields=None, path=(), effects=(), raised=None, notes=(),
+                 notepos=()):
         self.env = env if env is not None else {}
         self.fields = fields if fields is not None else {}
         self.path = path
         self.effects = effects
         self.raised = raised
         self.notes = notes
+        self.notepos = notepos
 
     def copy(self):
         return State(dict(self.env), dict(self.fields), self.path, self.effects, self.raised,
-                     self.notes)
+                     self.notes, self.notepos)
 
     def bind(self, name, val):
         s = self.copy()
@@ -222,6 +224,7 @@ class State:
     def note(self, n):
         s = self.copy()
         s.notes = s.notes + (n,)
+        s.notepos = s.notepos + (len(s.path),)   # how many path assumptions preceded the note
         return s
 
 
